@@ -936,8 +936,272 @@ fn c14_version_index_not_restored(dir: PathBuf) -> ScenFut<'static> {
     })
 }
 
+fn c01_begin_races_compaction(dir: PathBuf) -> ScenFut<'static> {
+    Box::pin(async move {
+        // needs real threads: run on a helper multi-thread runtime
+        let res = std::thread::spawn(move || -> Result<(), String> {
+            let rt = tokio::runtime::Builder::new_multi_thread().worker_threads(4).enable_all().build().map_err(|e| e.to_string())?;
+            rt.block_on(async move {
+                let t = std::sync::Arc::new(c01_cfg().open(&dir).map_err(|e| e.to_string())?);
+                put(&t, &[(b"k", b"v1")]).await?;
+                t.verif_flush().map_err(|e| e.to_string())?;
+                let ctl = crate::e3::ctl();
+                ctl.reset();
+                let gate = ctl.arm_gate("txn.begin.after_load");
+                // the reader loads its horizon, then is held before it registers its snapshot
+                let t2 = t.clone();
+                let reader = std::thread::spawn(move || -> Result<(u64, Option<Vec<u8>>), String> {
+                    let tx = t2.begin_with_mode(Mode::ReadOnly).map_err(|e| e.to_string())?;
+                    let h = tx.verif_start_seq();
+                    let v = tx.get(&b"k"[..]).map_err(|e| e.to_string())?;
+                    Ok((h, v))
+                });
+                if !gate.wait_parked(5000) {
+                    gate.release();
+                    let _ = reader.join();
+                    return Err("harness: the reader never reached txn.begin.after_load".into());
+                }
+                // meanwhile: overwrite, flush, compact (no snapshot is registered yet)
+                put(&t, &[(b"k", b"v2")]).await?;
+                let seq_v2 = t.verif_visible_seq();
+                t.verif_flush().map_err(|e| e.to_string())?;
+                compact_all(&t).await?;
+                gate.release();
+                let (h, got) = reader.join().map_err(|_| "reader thread panicked".to_string())??;
+                ctl.reset();
+                match std::sync::Arc::try_unwrap(t) {
+                    Ok(t) => close(t).await,
+                    Err(_) => {}
+                }
+                let exp: &[u8] = if h >= seq_v2 { b"v2" } else { b"v1" };
+                if got.as_deref() == Some(exp) {
+                    Ok(())
+                } else {
+                    Err(format!(
+                        "begin loaded horizon {} and was held before registering its snapshot while k was overwritten (seq {}), flushed and compacted: get(k) = {:?}, the state at its horizon is {:?}",
+                        h,
+                        seq_v2,
+                        got.map(|v| String::from_utf8_lossy(&v).to_string()),
+                        String::from_utf8_lossy(exp)
+                    ))
+                }
+            })
+        })
+        .join()
+        .map_err(|_| "scenario thread panicked".to_string())?;
+        res
+    })
+}
+
+fn c05_l0_order_by_largest_seq(dir: PathBuf) -> ScenFut<'static> {
+    Box::pin(async move {
+        let res = std::thread::spawn(move || -> Result<(), String> {
+            let rt = tokio::runtime::Builder::new_multi_thread().worker_threads(4).enable_all().build().map_err(|e| e.to_string())?;
+            rt.block_on(async move {
+                let cfg = Cfg { level_count: 3, l0_max_files: 8, ..base_cfg() };
+                let t = std::sync::Arc::new(cfg.open(&dir).map_err(|e| e.to_string())?);
+                put(&t, &[(b"k", b"v1")]).await?;
+                let ctl = crate::e3::ctl();
+                ctl.reset();
+                // B: overwrites k; held after its WAL write, before its memtable apply
+                let gate = ctl.arm_gate("commit.after_wal");
+                let tb = t.clone();
+                let b = tokio::spawn(async move {
+                    let mut tx = tb.begin().map_err(|e| e.to_string())?;
+                    tx.set(&b"k"[..], &b"v2"[..]).map_err(|e| e.to_string())?;
+                    tx.commit().await.map_err(|e| e.to_string())
+                });
+                let g2 = gate.clone();
+                if !tokio::task::spawn_blocking(move || g2.wait_parked(5000)).await.unwrap_or(false) {
+                    gate.release();
+                    let _ = b.await;
+                    return Err("harness: the committer never reached commit.after_wal".into());
+                }
+                // X: a later commit to another key; its apply finishes first, into the old memtable
+                let tx_ = t.clone();
+                let x = tokio::spawn(async move {
+                    let mut tx = tx_.begin().map_err(|e| e.to_string())?;
+                    tx.set(&b"y"[..], &b"w"[..]).map_err(|e| e.to_string())?;
+                    tx.commit().await.map_err(|e| e.to_string())
+                });
+                // wait until X is applied (it stays unpublished behind B)
+                let mut applied = false;
+                for _ in 0..2000 {
+                    if ctl.point_hits.lock().unwrap().get("commit.after_mark_applied").copied().unwrap_or(0) >= 1 {
+                        applied = true;
+                        break;
+                    }
+                    tokio::time::sleep(std::time::Duration::from_millis(1)).await;
+                }
+                if !applied {
+                    gate.release();
+                    let _ = b.await;
+                    let _ = x.await;
+                    return Err("harness: the second commit never finished its apply".into());
+                }
+                t.verif_rotate().map_err(|e| e.to_string())?;
+                gate.release();
+                b.await.map_err(|e| e.to_string())??;
+                x.await.map_err(|e| e.to_string())??;
+                ctl.reset();
+                let before = get1(&t, b"k")?;
+                t.verif_flush().map_err(|e| e.to_string())?;
+                let lay = t.verif_layout().map_err(|e| e.to_string())?;
+                let after = get1(&t, b"k")?;
+                let tables: Vec<String> = lay.tables.iter().map(|x| format!("L{}#{} seqs {:?}..{:?}", x.level, x.id, x.smallest_seq, x.largest_seq)).collect();
+                if let Ok(t) = std::sync::Arc::try_unwrap(t) {
+                    close(t).await;
+                }
+                if before.as_deref() != Some(&b"v2"[..]) || after.as_deref() != Some(&b"v2"[..]) {
+                    return Err(format!(
+                        "k=v1 committed; commit of k=v2 held between WAL and apply while a later commit to another key applied into the old memtable; rotate; k=v2 applied into the new memtable; both acknowledged. get(k) = {:?} before the flush and {:?} after it (tables {:?}); expected v2",
+                        before.map(|v| String::from_utf8_lossy(&v).to_string()),
+                        after.map(|v| String::from_utf8_lossy(&v).to_string()),
+                        tables
+                    ));
+                }
+                Ok(())
+            })
+        })
+        .join()
+        .map_err(|_| "scenario thread panicked".to_string())?;
+        res
+    })
+}
+
+fn get1(t: &Tree, k: &[u8]) -> Result<Option<Vec<u8>>, String> {
+    let tx = t.begin_with_mode(Mode::ReadOnly).map_err(|e| e.to_string())?;
+    tx.get(k).map_err(|e| e.to_string())
+}
+
+fn l0_count(t: &Tree) -> Result<(usize, Vec<String>), String> {
+    let lay = t.verif_layout().map_err(|e| e.to_string())?;
+    let mut per = std::collections::BTreeMap::new();
+    for x in &lay.tables {
+        let e = per.entry(x.level).or_insert((0usize, 0u64));
+        e.0 += 1;
+        e.1 += x.file_size;
+    }
+    Ok((per.get(&0).map(|e| e.0).unwrap_or(0), per.iter().map(|(l, e)| format!("L{}: {} tables, {} bytes", l, e.0, e.1)).collect()))
+}
+
+async fn fill(t: &Tree, tag: &str, n: usize, vlen: usize) -> Result<(), String> {
+    let v = vec![0x61u8; vlen];
+    let keys: Vec<Vec<u8>> = (0..n).map(|i| format!("{}{:04}", tag, i).into_bytes()).collect();
+    let kvs: Vec<(&[u8], &[u8])> = keys.iter().map(|k| (k.as_slice(), v.as_slice())).collect();
+    put(t, &kvs).await
+}
+
+fn c17_bottom_level_outranks_l0(dir: PathBuf) -> ScenFut<'static> {
+    Box::pin(async move {
+        // two levels: L1 is the bottom level; make it larger than its target, then add L0 files
+        let cfg = Cfg { level_count: 2, l0_max_files: 1, max_bytes_for_level: 2048, l0_stall: 3, ..base_cfg() };
+        let t = cfg.open(&dir).map_err(|e| e.to_string())?;
+        fill(&t, "a", 60, 200).await?;
+        t.verif_flush().map_err(|e| e.to_string())?;
+        t.verif_compact_once().map_err(|e| e.to_string())?;
+        for i in 0..cfg.l0_stall {
+            fill(&t, &format!("b{}", i), 2, 20).await?;
+            t.verif_flush().map_err(|e| e.to_string())?;
+        }
+        let (before, lay_before) = l0_count(&t)?;
+        let mut rounds = 0;
+        for _ in 0..12 {
+            rounds += 1;
+            t.verif_compact_once().map_err(|e| e.to_string())?;
+            if l0_count(&t)?.0 < cfg.l0_stall {
+                break;
+            }
+        }
+        let (after, lay_after) = l0_count(&t)?;
+        close(t).await;
+        if after >= cfg.l0_stall {
+            return Err(format!(
+                "2 levels, bottom level over its size target, {} files on L0 (write-stall limit {}): after {} rounds of the production compaction strategy L0 still holds {} files, so a stalled commit() never resumes (before: {:?}; after: {:?})",
+                before, cfg.l0_stall, rounds, after, lay_before, lay_after
+            ));
+        }
+        Ok(())
+    })
+}
+
+fn c17_one_compaction_round_per_wakeup(dir: PathBuf) -> ScenFut<'static> {
+    Box::pin(async move {
+        // three levels: L1 far over its target (outranks L0), L0 at the write-stall limit
+        let cfg = Cfg { level_count: 3, l0_max_files: 2, max_bytes_for_level: 512, l0_stall: 4, ..base_cfg() };
+        let t = cfg.open(&dir).map_err(|e| e.to_string())?;
+        fill(&t, "a", 60, 200).await?;
+        t.verif_flush().map_err(|e| e.to_string())?;
+        fill(&t, "a", 60, 200).await?;
+        t.verif_flush().map_err(|e| e.to_string())?;
+        t.verif_compact_once().map_err(|e| e.to_string())?;
+        for i in 0..4 {
+            fill(&t, &format!("b{}", i), 2, 20).await?;
+            t.verif_flush().map_err(|e| e.to_string())?;
+        }
+        let (before, lay_before) = l0_count(&t)?;
+        if before < cfg.l0_stall {
+            close(t).await;
+            return Err(format!("harness: could not build the state (L0 holds {} files: {:?})", before, lay_before));
+        }
+        // what the flush task does after its last flush: wake the level task once
+        let ctl = crate::e3::ctl();
+        ctl.reset();
+        surrealkv::verif::set_manual_background(false);
+        t.verif_wake_background();
+        let mut idle = false;
+        for _ in 0..5000 {
+            tokio::time::sleep(std::time::Duration::from_millis(1)).await;
+            let hits = ctl.point_hits.lock().unwrap().get("task.level.before_idle").copied().unwrap_or(0);
+            let lay = t.verif_layout().map_err(|e| e.to_string())?;
+            if hits >= 1 && !lay.level_task_running && !lay.memtable_task_running {
+                idle = true;
+                break;
+            }
+        }
+        surrealkv::verif::set_manual_background(true);
+        ctl.reset();
+        let (after, lay_after) = l0_count(&t)?;
+        close(t).await;
+        if !idle {
+            return Err("harness: the level task never went idle".into());
+        }
+        if after >= cfg.l0_stall {
+            return Err(format!(
+                "L0 at the write-stall limit ({} files, limit {}), L1 far over its target; the level task is woken once (as after a flush) and goes idle with L0 still at {} files: writers stay stalled and no flush will ever wake it again (before: {:?}; after: {:?})",
+                before, cfg.l0_stall, after, lay_before, lay_after
+            ));
+        }
+        Ok(())
+    })
+}
+
 pub fn all() -> Vec<Scenario> {
     vec![
+        Scenario {
+            id: "C17-bottom-level-outranks-l0",
+            property: "C17",
+            title: "bottom level over its size target while L0 sits at the write-stall limit",
+            run: c17_bottom_level_outranks_l0,
+        },
+        Scenario {
+            id: "C17-one-compaction-round-per-wakeup",
+            property: "C17",
+            title: "level task woken once while L1 outranks an L0 that sits at the write-stall limit",
+            run: c17_one_compaction_round_per_wakeup,
+        },
+        Scenario {
+            id: "C05-l0-order-by-largest-seq",
+            property: "C05",
+            title: "two commits whose applies finish out of WAL order around a memtable rotation, then flush",
+            run: c05_l0_order_by_largest_seq,
+        },
+        Scenario {
+            id: "C01-begin-races-compaction",
+            property: "C01",
+            title: "begin held between loading its horizon and registering its snapshot while a compaction runs",
+            run: c01_begin_races_compaction,
+        },
         Scenario {
             id: "C14-stale-block-cache-after-restore",
             property: "C14",
